@@ -127,6 +127,7 @@ class verify_sig(Contract):
 
 class NameRef:
     """a certificate / key-locator name; equality with the anchor's name is a ghost boolean"""
+    opaque_value = True
 
     def __init__(self, run, label):
         self.label = label
